@@ -1,6 +1,6 @@
 (* C16 property theorems: statements only, each closed by `exact`, with Print Assumptions. *)
 From Coq Require Import ZArith QArith Qabs List Bool Lia.
-From QE Require Import Base.Num C16.Model C16.Proofs C16.Proofs2 C16.Proofs3 C16.Proofs4 C16.Proofs5 C16.Proofs6.
+From QE Require Import Base.Num C16.Model C16.Model2 C16.Proofs C16.Proofs2 C16.Proofs3 C16.Proofs4 C16.Proofs5 C16.Proofs6 C16.Proofs7 C16.Proofs8.
 Import ListNotations.
 Open Scope Z_scope.
 
@@ -199,3 +199,68 @@ Qed.
 Example C16_simplex_grid_example :
   simplex_grid 3 2 = Some [[0;0;2]; [0;1;1]; [0;2;0]; [1;0;1]; [1;1;0]; [2;0;0]].
 Proof. reflexivity. Qed.
+
+(* ================= int64 rank sum (Proofs7.v) =================
+   every value taken by the accumulator of k_array_rank_jit (after 1, 2, ..., k terms) is the exact partial rank
+   and lies in [0, C(n,k)): no int64 overflow in the sum whenever C(n,k) <= INTP_MAX (the terms themselves are
+   exact under rank_jit_guard) *)
+Theorem C16_k_array_rank_jit_no_overflow : forall k a n, k_array k a -> last a 0 < n ->
+  binomZ n (Z.of_nat k) <= INTP_MAX -> rank_jit_guard 1 (tl a) ->
+  forall j, (1 <= j <= k)%nat ->
+    k_array_rank_jit (firstn j a) = k_array_rank (firstn j a) /\
+    0 <= k_array_rank (firstn j a) <= k_array_rank a /\ k_array_rank a < binomZ n (Z.of_nat k) <= INTP_MAX.
+Proof. exact k_array_rank_jit_no_overflow. Qed.
+Print Assumptions C16_k_array_rank_jit_no_overflow.
+
+(* ================= linspace / mlinspace (Model2.v, Proofs7.v) =================
+   lin_point a b n j = a if n = 1, else a + j*(b-a)/(n-1) *)
+Theorem C16_linspace_Q_spec : forall (a b : Q) n, 1 <= n ->
+  Z.of_nat (length (linspace a b n)) = n /\
+  (forall j, 0 <= j < n -> (nth (Z.to_nat j) (linspace a b n) 0 == lin_point a b n j)%Q) /\
+  (nth 0 (linspace a b n) 0 == a)%Q /\
+  (2 <= n -> nth (Z.to_nat (n - 1)) (linspace a b n) 0%Q = b).
+Proof. exact linspace_Q_spec. Qed.
+Print Assumptions C16_linspace_Q_spec.
+
+(* every Num instance: the rows of mlinspace are the product grid of the per-dimension linspace nodes *)
+Theorem C16_mlinspace_spec : forall (T : Type) (H : Num T) (a b : list T) nums,
+  Forall (fun n => 1 <= n) nums -> length a = length nums -> length b = length nums ->
+  mlinspace false a b nums =
+    map (fun l => pick nzero (linspace_nodes a b nums) (digits nums l)) (zrange (prodZ nums)) /\
+  mlinspace true a b nums = map (@rev T) (mlinspace false (rev a) (rev b) (rev nums)).
+Proof. exact @mlinspace_spec. Qed.
+Print Assumptions C16_mlinspace_spec.
+
+Example C16_linspace_example : linspace 1%Q 3%Q 5 = [1; (3#2); 2; (5#2); 3]%Q /\ linspace 4%Q 9%Q 1 = [4%Q].
+Proof. split; reflexivity. Qed.
+
+(* ================= nearest index, every Num instance (Proofs8.v) =================
+   nle a b := nleb a b = true;  dist g x := if nleb x g then nsub g x else nsub x g
+   sorted_grid F g: every g[i] satisfies F and g is weakly increasing for nle.
+   Hypotheses (explicit): F = admissible inputs, C = comparable values *)
+Theorem C16_nearest_1d_argmin_gen : forall (T : Type) (H : Num T) (F C : T -> Prop),
+  (forall a, F a -> C a) ->
+  (forall a b, F a -> F b -> C (nsub a b)) ->
+  (forall a b, C a -> C b -> nle a b \/ nle b a) ->
+  (forall a b c, C a -> C b -> C c -> nle a b -> nle b c -> nle a c) ->
+  (forall a b, C a -> C b -> nltb a b = negb (nleb b a)) ->
+  (forall a b c, F a -> F b -> F c -> nle a b -> nle (nsub a c) (nsub b c)) ->
+  (forall a b c, F a -> F b -> F c -> nle a b -> nle (nsub c b) (nsub c a)) ->
+  forall (grid : list T) (x : T),
+  grid <> [] -> sorted_grid F grid -> F x ->
+  let r := nearest_1d grid x in
+  (0 <= r < Z.of_nat (length grid)) /\
+  forall j, (j < length grid)%nat ->
+    nle (dist (nth (Z.to_nat r) grid nzero) x) (dist (nth j grid nzero) x).
+Proof. exact @nearest_1d_argmin_gen. Qed.
+Print Assumptions C16_nearest_1d_argmin_gen.
+
+(* the hypotheses are satisfiable: the instance Q (F = C = everything) *)
+Theorem C16_nearest_1d_argmin_Q_gen : forall (grid : list Q) (x : Q),
+  grid <> [] -> (forall i j, (i <= j < length grid)%nat -> (nth i grid 0 <= nth j grid 0)%Q) ->
+  let r := nearest_1d grid x in
+  (0 <= r < Z.of_nat (length grid)) /\
+  forall j, (j < length grid)%nat ->
+    (dist (nth (Z.to_nat r) grid 0%Q) x <= dist (nth j grid 0%Q) x)%Q.
+Proof. exact nearest_1d_argmin_Q_gen. Qed.
+Print Assumptions C16_nearest_1d_argmin_Q_gen.
